@@ -37,6 +37,9 @@ def check_code(code):
     ins = bm.instructions(code)
     offs = [i.offset for i in ins]
     nxt = dict(zip(offs, offs[1:]))
+    for name, b in bf.scfg.graph.items():
+        if type(b).__name__ != "PythonBytecodeBlock" or not isinstance(getattr(b, "begin", None), int) or not isinstance(getattr(b, "end", None), int):
+            raise V("B-type", f"the graph built from bytecode contains {name}, a {type(b).__name__}, which is not a bytecode block with begin/end offsets")
     blocks = sorted(bf.scfg.graph.values(), key=lambda b: b.begin)
     for name, b in bf.scfg.graph.items():
         if name != b.name:
